@@ -1718,3 +1718,92 @@ def check_first_call_only(ctx, res, rule, construct, loc_of):
                       witness={"history": "call twice (fit(y1); fit(y2) or set_params(...); fit(y))"})
     if not bad:
         ctx.ok(rule, construct + ":re-established", "no fitted attribute is guarded by its own previous value (%d stores)" % len(res.stores()), None)
+
+
+_BORROWED = {}
+
+
+def closure_digest(repo, roots):
+    """Digest of the sources of ``roots`` (relpaths) and of every repo module they import, transitively (through
+    packages' ``__init__`` too).  A borrowed rule only reads code inside this closure, so its verdicts can be reused
+    while the digest is unchanged (the self-test re-runs every check on ~300 overlays that mostly differ elsewhere)."""
+    import hashlib
+    seen, stack = set(), []
+    for r in roots:
+        m = repo.by_relpath.get(r)
+        if m is None:
+            return None
+        stack.append(m)
+    while stack:
+        m = stack.pop()
+        if m.name in seen:
+            continue
+        seen.add(m.name)
+        parts = m.name.split(".")
+        for i in range(1, len(parts)):
+            pkg = repo.modules.get(".".join(parts[:i]))
+            if pkg is not None and pkg.name not in seen:
+                stack.append(pkg)
+        for target in list(m.imports.values()) + list(m.star_imports):
+            t = target
+            while t:
+                tm = repo.modules.get(t)
+                if tm is not None:
+                    if tm.name not in seen:
+                        stack.append(tm)
+                    break
+                t = t.rpartition(".")[0]
+    h = hashlib.sha1()
+    for name in sorted(seen):
+        h.update(name.encode())
+        h.update(repo.modules[name].src.encode())
+    return h.hexdigest()
+
+
+def borrow(ctx, prop, func_name, args, rule, construct, accept, what, roots=()):
+    """Decide a contract this property *trusts* by running the rule of the property that owns it
+    (``sa.props.<prop>.<func_name>``) on a scratch context and reporting its verdicts here (no duplicated logic).
+    ``accept(result)`` selects the borrowed instances that express the trusted contract; violations that are known
+    findings of the owning property are that property's business and are skipped."""
+    import importlib
+    from .. import report as _report
+    try:
+        key = (prop, func_name, tuple(args), closure_digest(ctx.repo, roots)) if roots else None
+        if key is not None and key in _BORROWED:
+            sub = _BORROWED[key]
+        else:
+            mod = importlib.import_module("sa.props." + prop.lower())
+            fn = getattr(mod, func_name)
+            sub = _report.Ctx(prop, ctx.repo, ctx.tier)
+            fn(sub, ctx.repo, *args)
+            if key is not None:
+                _BORROWED[key] = sub
+    except AnalysisError as e:
+        ctx.undecided(rule, construct, "%s: the %s rule could not interpret the callee (%s)" % (what, prop, e), None)
+        return
+    except Exception as e:  # the borrowed rule failed internally: fail closed, never a violation
+        ctx.undecided(rule, construct, "%s: the %s rule `%s` is not usable here (%r)" % (what, prop, func_name, e), None)
+        return
+    known = {(k["rule"], k["construct"]) for k in _report.load_known() if k.get("property") == prop and k.get("status", "known") == "known"}
+    n_ok = n = 0
+    seen = set()
+    for r in sub.results:
+        if not accept(r):
+            continue
+        n += 1
+        key = (r["rule"], r["construct"])
+        if r["verdict"] == _report.HOLDS or key in known:
+            n_ok += 1
+            continue
+        if key in seen:
+            continue
+        seen.add(key)
+        c = "%s:%s-%s:%s" % (construct, prop, r["rule"], r["construct"])
+        if r["verdict"] == _report.VIOLATION:
+            ctx.violation(rule, c, "%s is broken in the callee (decided by %s-%s): %s" % (what, prop, r["rule"], r["detail"]), r["loc"], r.get("witness"))
+        else:
+            ctx.undecided(rule, c, "%s cannot be decided in the callee (%s-%s): %s" % (what, prop, r["rule"], r["detail"]), r["loc"])
+    if n == 0:
+        ctx.undecided(rule, construct, "%s: the %s rule produced no instance for the trusted callee" % (what, prop), None)
+    elif not seen:
+        ctx.ok(rule, construct, "%s holds in the callee (%d obligations of %s)" % (what, n_ok, prop), None)
